@@ -7,7 +7,8 @@ PID = "C15"
 RULE = ("non-trivial = a QR case with condition number > 1e3, a zero in the first column, a pivot column that is almost reduced already (non-zero part below the diagonal <= 1e-5 of the column) "
         "or an overall scale beyond 2^+-12, or a symmetric eigen-case with some "
         "eigenvalue ratio > 0.5, or with an eigenvector that has a zero component (diagonal / block-diagonal / permuted) or is a coordinate vector turned by a tiny angle (nearly diagonal), "
-        "or eigenvalues of both signs, or an overall scale beyond 2^+-12; distinct by case text")
+        "or eigenvalues of both signs, or an overall scale beyond 2^+-12, or a structured spectrum (vanishing / nearly vanishing trace, small integers, all ratios at an end of the range) "
+        "or structured eigenvectors (orthogonal to a natural start vector of the inverse iteration, small-integer planes); distinct by case text")
 LEVEL_TEXT = ("Theorems (Coq, over the reals, every dimension n >= 1): for a non-zero first column x the model of Householder_Matrix returns H = 1 - 2 u u^T with u well defined "
               "(|x - alpha e1|^2 = 2(|x|^2 - alpha x0) >= 2|x|^2 > 0), alpha^2 = |x|^2, H symmetric, H^T H = 1 and H x = alpha e1; "
               "the construction is scale-free, Householder_Matrix(c M) = Householder_Matrix(M) for every c > 0 (C15_Proofs_Scale.v). "
@@ -26,8 +27,12 @@ LEVEL_TEXT = ("Theorems (Coq, over the reals, every dimension n >= 1): for a non
               "Those clauses are covered by the differential run of the extracted model against the library (bit-identical) and by the S4 predicates on the library's output "
               "(Q^T Q = 1, R upper triangular, Q R = M norm-wise and column by column; eigenvalues against an independent Jacobi routine, trace, exact-rational determinant; unit eigenvectors with M v = lambda v; termination within the runner's time bound). "
               "The predicates are scale-free (evaluated on M / 2^e and the outputs / 2^e) and the generators move every operation along a ladder of overall scales 1e-305 .. 1e305, put pivot columns and eigenvector angles "
-              "at relative sizes 1e-16 .. 1e-6, and drive several calls on one Matrix object; where the library leaves the property at the ends of the double range or on nearly diagonal unordered matrices "
-              "the failing clause carries the input region in its signature (known_findings.d/C15.json: K-C15-1..4).")
+              "at relative sizes 1e-16 .. 1e-6, drive several calls on one Matrix object, and produce spectra with linear relations (trace zero, or 1e-16 .. 1e-6 of sum |lambda|; small integers; all ratios 0.8 / 0.1) "
+              "and eigenvectors orthogonal to the vectors an inverse iteration may start from ((1, 1/2, .., 1/n), (1, .., 1), e_1, ...: in all coordinates, inside a coordinate block, or turned out of the complement by 1e-16 .. 1e-6); "
+              "over the reals the loop of Find_Eigenvector_Rayleigh never leaves the orthogonal complement of an eigenvector of the symmetric M_inv and stops at once at a start vector that is an eigenvector "
+              "(theorems C15_inverse_iteration_keeps_orthogonality, C15_inverse_iteration_stays_at_eigen_start), so for these inputs the clause rests on rounding noise and on the S4 predicates alone. "
+              "Where the library leaves the property at the ends of the double range, on matrices whose leading coordinate subspaces miss a dominant eigenvector, or when the start vector is an eigenvector, "
+              "the failing clause carries the input region in its signature (known_findings.d/C15.json: K-C15-1..5).")
 LEVEL_NOTE = ("Coq 8.16.1 kernel, theorems over R (axioms of the real numbers as printed by Print Assumptions); hand-written model tied by differential correspondence "
               "(extraction with ExtrOcamlBasic only); every loop of the modelled code is bounded by a literal (200 sweeps, 100 inverse iterations)")
 TOL = (1e-12, 1e-300)
